@@ -14,6 +14,7 @@ import Zed.Proofs.CompareTypesTrans
 import Zed.Proofs.InsertionSort
 import Zed.Proofs.TypeValue
 import Zed.Proofs.Context
+import Zed.Proofs.CtxStepsInv
 namespace Zed.Props.C05
 open Zed Zed.Ord Zed.Generated.C05
 
@@ -159,14 +160,104 @@ theorem typevalue_stable (c : Ctx) (hc : c.Inv) (env : Ctx.Env) (he : Ctx.EnvOk 
 example : (((Ctx.runOps [Ctx.Op.set (.prim 6)] Ctx.empty []).1.exec [] (.byValue [32, 6, 0])).2.2.lookupTypeValue
     (.set (.prim 6))).1 = some [32, 6] := by decide
 
-/-! ### what is false of the current code: concurrent decoders
+/-! ### concurrency: every interleaving of the atomic steps
 
-  Every `Lookup*` call is one critical section, so an execution of any number of goroutines
-  is a sequence of the model's step functions.  `context_canonical` quantifies over all
-  sequences of operations, hence over all interleavings of the atomic ones (record, array, set,
-  map, union, enum, error, named lookups, LookupTypeDef).  `LookupByValue` is *not* atomic
-  (DecodeTypeValue runs outside the mutex, its last critical section is `Ctx.storeByValue`); for
-  it the interleaved statements are FALSE: -/
+  The atomic steps of the context's clients are its critical sections.  Every `Lookup*` method is one
+  (`lock_shape`, regenerated); `LookupByValue` is a probe of `toType`, then `DecodeTypeValue` OUTSIDE
+  the mutex — whose only accesses to the context are `Lookup*` calls, one critical section each — then
+  a final critical section that stores the caller's bytes (`Ctx.storeByValue`).  A decoding thread is
+  the program `Ctx.prog tv` (compiled from the bytes by the same descent as `decodeTV`; control flow
+  does not depend on the context) run on a thread-local stack, one instruction per step
+  (`Zed.Model.CtxSteps`); `Ctx.runSched` interleaves decoding threads and client threads (histories of
+  direct `Lookup*` calls) under an arbitrary schedule. -/
+
+def atomicMethods : List String :=
+  ["LookupTypeRecord", "LookupTypeSet", "LookupTypeMap", "LookupTypeArray", "LookupTypeUnion",
+   "LookupTypeEnum", "LookupTypeDef", "LookupTypeNamed", "LookupTypeError"]
+
+def isMutexOp (e : String) : Bool := ["Lock", "Unlock", "RLock", "RUnlock", "defer Unlock", "defer RUnlock"].contains e
+
+/-- Obligation on the regenerated table of receiver accesses: every `Lookup*` method takes the mutex
+    first, releases it by `defer`, touches nothing before and calls only the `…WithLock` helpers;
+    `LookupByValue` is probe / `DecodeTypeValue()` outside the mutex / store; `DecodeTypeValue`
+    touches no field and no mutex and calls only the `Lookup*` methods and itself;
+    `TranslateType` is `LookupByValue`. -/
+theorem lock_shape :
+    (atomicMethods.all fun m =>
+      match lockShape.lookup m with
+      | some ("Lock" :: "defer Unlock" :: rest) =>
+        rest.all fun e => !isMutexOp e &&
+          [".toType", ".typedefs", ".stringErr", "nextIDWithLock()", "enterWithLock()"].contains e
+      | _ => false) = true ∧
+    lockShape.lookup "LookupByValue" =
+      some ["Lock", ".toType", "Unlock", "DecodeTypeValue()", "Lock", "defer Unlock", ".toValue", ".toValue", ".toType"] ∧
+    (match lockShape.lookup "DecodeTypeValue" with
+     | some es => es.all fun e => e == "DecodeTypeValue()" || (atomicMethods.map (· ++ "()")).contains e
+     | none => false) = true ∧
+    lockShape.lookup "TranslateType" = some ["LookupByValue()"] ∧
+    lockShape.lookup "enterWithLock" = some [".toValue", ".toType", ".byID", ".byID"] ∧
+    lockShape.lookup "nextIDWithLock" = some [".byID"] := by decide
+
+/-- a decoding thread that runs alone is `DecodeTypeValue` as modelled by `decodeTV` (which the
+    harness compares with the real code): same context afterwards, same result, same rest -/
+theorem decode_thread_solo (c : Ctx) (tv : Bytes) (st : List Ty) :
+    match c.decodeC tv with
+    | (c', some (t, rest)) =>
+      (Ctx.compileTV (tv.length + 1) tv).2 = some rest ∧ Ctx.runI (Ctx.prog tv).1 c st = (c', some (t :: st))
+    | (c', none) =>
+      (Ctx.runI (Ctx.prog tv).1 c st).1 = c' ∧ ((Ctx.prog tv).2 = true → (Ctx.runI (Ctx.prog tv).1 c st).2 = none) := by
+  have h := Ctx.simTV (tv.length + 1) c tv st
+  unfold Ctx.decodeC
+  cases hd : Ctx.decodeTV (tv.length + 1) c tv with
+  | mk c1 o =>
+    rw [hd] at h
+    cases o with
+    | none => exact h
+    | some q => obtain ⟨t, rest⟩ := q; exact h
+
+/-- a `LookupByValue` thread that runs alone is `lookupByValue` -/
+theorem lookupByValue_thread_solo (c : Ctx) (tv : Bytes) :
+    ∃ n, Ctx.runD n c (Ctx.startD tv) = ((c.lookupByValue tv).2, { tv := tv, ph := .done (c.lookupByValue tv).1 }) :=
+  Ctx.runD_solo c tv
+
+/-- the threads of the statement below: one `LookupByValue(tv)` (or `TranslateType`) per `tv`, one
+    client per history -/
+def threadsOf (tvs : List Bytes) (clients : List (List Ctx.Op)) : List Ctx.Thread :=
+  tvs.map (fun tv => .dec (Ctx.startD tv)) ++ clients.map (fun ops => .cli ops [])
+
+/-- **context_canonical for every interleaving of the atomic steps.**  Any number of concurrent
+    `LookupByValue`/`TranslateType` calls whose type values are context-independent (`progOk`: the
+    bytes are well-formed, no NameRef, no step that fails — duplicate field, bad type name) and any
+    number of clients making direct `Lookup*` calls (arguments: primitives or their own earlier
+    results), under EVERY schedule of their atomic steps: the invariant of `context_canonical` holds
+    (hence `ids_canonical`, `lookup_idempotent`, `typevalue_canonical` of the resulting context);
+    every finished `LookupByValue` returned a type of the context, and for the canonical
+    serialization of a well-formed type `u` it returned `u` — whatever the other threads did in
+    between; every client holds types of the context. -/
+theorem context_canonical_interleaved (tvs : List Bytes) (clients : List (List Ctx.Op)) (sched : List Nat)
+    (hok : ∀ tv ∈ tvs, Ctx.progOk tv = true) (hat : ∀ ops ∈ clients, ∀ op ∈ ops, Ctx.Op.atomic op = true) :
+    (Ctx.runSched sched Ctx.empty (threadsOf tvs clients)).1.Inv ∧
+    (∀ tv t, Ctx.Thread.dec { tv := tv, ph := .done (some t) } ∈ (Ctx.runSched sched Ctx.empty (threadsOf tvs clients)).2 →
+      (Ctx.runSched sched Ctx.empty (threadsOf tvs clients)).1.has t ∧ ∀ u, u.wf = true → encodeTV u = tv → t = u) ∧
+    (∀ ops env, Ctx.Thread.cli ops env ∈ (Ctx.runSched sched Ctx.empty (threadsOf tvs clients)).2 →
+      Ctx.EnvOk (Ctx.runSched sched Ctx.empty (threadsOf tvs clients)).1 env) := by
+  have h0 : ∀ th ∈ threadsOf tvs clients, Ctx.TOk Ctx.empty th := by
+    intro th hth
+    simp only [threadsOf, List.mem_append, List.mem_map] at hth
+    rcases hth with ⟨tv, htv, rfl⟩ | ⟨ops, hops, rfl⟩
+    · exact ⟨hok tv htv, trivial⟩
+    · exact ⟨fun r hr => absurd hr List.not_mem_nil, hat ops hops⟩
+  have g := Ctx.runSched_ok sched Ctx.empty (threadsOf tvs clients) Ctx.inv_empty h0
+  refine ⟨g.1, fun tv t hm => ?_, fun ops env hm => (g.2 _ hm).1⟩
+  exact (g.2 _ hm).2 t rfl
+
+/-- the context-independent programs are not few: a record with a named type, an array of maps of
+    unions, an enum and an error type (no name occurs twice) -/
+example : Ctx.progOk (encodeTV (Ty.record (.cons [102] (.named [120] tInt) (.cons [103]
+    (.array (.map (.prim 25) (.union (.cons tInt (.cons (.prim 25) .nil))))) (.cons [104]
+    (.error (.enum [[97], [98]])) .nil))))) = true := by decide
+
+/-! #### what is false of the current code: a NameRef under interleaving -/
 
 /-- Full statement `nameref_atomicity`: under interleaving of the decoders' atomic steps a
     NameRef resolves to the decoder's own preceding NameDef.  FALSE on a shared context: between
@@ -180,29 +271,20 @@ theorem not_nameref_atomicity :
   revert this
   decide
 
-/-- what decoder A's bytes denote: `{f:x=int64, g:x}` -/
+/-- what decoder A's bytes denote: `{f:x=int64, g:x}` (its program has a NameRef: not `progOk`) -/
 def uA : Ty := .record (.cons [102] (.named [120] tInt) (.cons [103] (.named [120] tInt) .nil))
 
-/-- the schedule  A: NameDef x=int64 · B: NameDef x=string · A: NameRef x · A: LookupTypeRecord ·
-    A: store (last step of LookupByValue) -/
+/-- thread 0 = `LookupByValue` of `{f:x=int64, g:x}`, thread 1 = `LookupByValue` of `x=string`; the
+    schedule  A: probe · int64 · NameDef x | B: probe · string · NameDef x | A: NameRef x ·
+    LookupTypeRecord · store -/
 def interleaved : Ctx :=
-  let c1 := (Ctx.empty.lookupNamed [120] tInt).2
-  let a1 := (Ctx.empty.lookupNamed [120] tInt).1
-  let c2 := (c1.lookupNamed [120] (.prim 25)).2
-  let a2 := c2.lookupTypeDef [120]
-  match a1, a2 with
-  | some f, some g =>
-    let r := c2.lookupRecord [([102], f), ([103], g)]
-    match r.1 with
-    | some t => r.2.storeByValue (encodeTV uA) t
-    | none => c2
-  | _, _ => c2
+  (Ctx.runSched [0, 0, 0, 1, 1, 1, 0, 0, 0] Ctx.empty
+    (threadsOf [encodeTV uA, encodeTV (.named [120] (.prim 25))] [])).1
 
-/-- after that schedule the context maps the canonical serialization of `{f:x=int64, g:x}` to a
-    different type, so translating that type into the context no longer yields it: the
-    invariant of `context_canonical` (and `translate_roundtrip`) does not survive interleaved
-    `LookupByValue`s that bind one name differently. -/
+/-- `context_canonical_interleaved` without `progOk` is FALSE: after that schedule the context maps
+    the canonical serialization of `{f:x=int64, g:x}` to a different type, so translating that type
+    into the context no longer yields it (finding C05:nameref:rebinding). -/
 theorem not_context_canonical_interleaved :
-    uA.wf = true ∧ (interleaved.translate uA).1 ≠ some uA := by decide
+    uA.wf = true ∧ Ctx.progOk (encodeTV uA) = false ∧ (interleaved.translate uA).1 ≠ some uA := by decide
 
 end Zed.Props.C05
